@@ -294,3 +294,25 @@ package ice
 //@   requires[C16] 0 <= fieldID && fieldID <= 65535 && fieldFreqs != nil
 //@   loop 0 invariant[C16] fieldFreqs[uint16(fieldID)] - mergedfreq == old(fieldFreqs[uint16(fieldID)] - mergedfreq)
 //@   ensures[C16] result0 == nil ==> fieldFreqs[uint16(fieldID)] - mergedfreq == old(fieldFreqs[uint16(fieldID)] - mergedfreq)
+//@
+//@ // ---------------------------------------------------------------------------
+//@ // C05: postings iterator navigation (document-number level)
+//@ // chunk sizes are positive and fit the 32-bit arithmetic the iterator uses
+//@ // (numDocs < 2^32 because document numbers are uint32)
+//@ func (*PostingsIterator).nextDocNumAtOrAfter
+//@   safety[C05] conv div nil
+//@   requires[C05] i != nil
+//@   requires[C05] i.Actual != nil ==> i.postings != nil && i.all != nil && 1 <= i.postings.chunkSize && i.postings.chunkSize <= 4294967295
+//@   // 1-hit cursor: delivered at most once, only if not below the target; the consumed sentinel is absorbing
+//@   ensures[C05] old(i.normBits1Hit) != 0 ==> err == nil && i.docNum1Hit == 18446744073709551615
+//@   ensures[C05] old(i.normBits1Hit) != 0 && exists ==> docNum == old(i.docNum1Hit) && docNum >= atOrAfter && docNum != 18446744073709551615
+//@   ensures[C05] old(i.normBits1Hit) != 0 && old(i.docNum1Hit) != 18446744073709551615 && old(i.docNum1Hit) >= atOrAfter ==> exists
+//@   ensures[C05] old(i.normBits1Hit) != 0 && old(i.docNum1Hit) == 18446744073709551615 ==> !exists
+//@   ensures[C05] err == nil && exists ==> docNum >= atOrAfter
+//@
+//@ func (*PostingsIterator).nextDocNumAtOrAfterClean
+//@   safety[C05] conv div nil
+//@   requires[C05] i != nil && i.Actual != nil && i.postings != nil && 1 <= i.postings.chunkSize && i.postings.chunkSize <= 4294967295
+//@   requires[C05] atOrAfter <= 4294967295
+//@   requires[C05] least(itset(i.Actual), itcur(i.Actual)) != -1
+//@   ensures[C05] err == nil && exists ==> docNum >= atOrAfter
